@@ -466,7 +466,7 @@ func okWrite(resp drive.Resp, sigbase, what string) error {
 	return nil
 }
 
-func annotPos(k int) (int, int, int) { return (k%4)*70 + 1, ((k / 4) % 2) * 70 + 2, 3 }
+func annotPos(k int) (int, int, int) { return (k%4)*70 + 1, ((k/4)%2)*70 + 2, 3 }
 
 func (w *world) write(ri, si int, op histOp, i int, what string) error {
 	r := w.repos[ri]
@@ -665,6 +665,22 @@ func runHistory(c histCase) (cls []string, err error) {
 			if nkeys >= 50 {
 				w.class("hist/delete-instance-with>=50-keys")
 			}
+			// the live instance that follows in key order (next higher id)
+			var succ *inst
+			succKey := ""
+			for rj, rr := range w.repos {
+				for sj, x := range rr.slots {
+					if x != nil && x.id > in.id && (succ == nil || x.id < succ.id) {
+						succ, succKey = x, instKey(rj, sj)
+					}
+				}
+			}
+			if nkeys > 0 && succ != nil && len(base[succKey].raw) > 0 {
+				w.class("hist/delete-nonempty-instance-followed-by-nonempty-instance")
+				if succ.typ == in.typ {
+					w.class("hist/delete-nonempty-instance-followed-by-nonempty-instance-of-same-type")
+				}
+			}
 		case "create":
 			if r.slots[si] != nil {
 				continue
@@ -733,6 +749,9 @@ func runHistory(c histCase) (cls []string, err error) {
 		case "reopen":
 			target = ""
 			settleAll(w, false)
+			// an asynchronous deletion persists the repo once more after the instance left the listing; give it
+			// time to finish before the store is closed (never decides a verdict)
+			time.Sleep(20 * time.Millisecond)
 			datastore.CloseReopenTest()
 			w.class("hist/reopen")
 			if deletions > 0 {
@@ -907,7 +926,7 @@ func steerAroundDeleteFinding(c *histCase) int {
 				return true
 			}
 		}
-		op.Kind = "newversion"
+		*op = histOp{Kind: "newversion", Repo: op.Repo, Slot: op.Slot}
 		return true
 	})
 	return changed
@@ -962,6 +981,12 @@ func genHistory(t *rapid.T) histCase {
 	for cy := 0; cy < cycles; cy++ {
 		some("pre", 5-2*cy)
 		del := genOp("delete")
+		if rapid.IntRange(0, 2).Draw(t, "loaded") == 0 {
+			// the instance to be deleted and its neighbour both hold many data under the same names
+			n := rapid.IntRange(50, 70).Draw(t, "load")
+			c.Ops = append(c.Ops, histOp{Kind: "bulk", Repo: del.Repo, Slot: del.Slot, N: n},
+				histOp{Kind: "bulk", Repo: del.Repo, Slot: (del.Slot + 1) % 3, N: n})
+		}
 		c.Ops = append(c.Ops, del)
 		some("mid", 2)
 		if rapid.IntRange(0, 5).Draw(t, "reopen") == 0 {
